@@ -4,7 +4,7 @@ import ast, struct, re
 
 from .core import ( rule, Result, AnalysisError, dotted, call_name, is_call_to, names_in, attrs_in, walk_no_nested,
                     norm_text, dotted_in, stmt_of, pmatch, pfind, txt )
-from .fold import try_fold
+from .fold import try_fold, fold, NoFold
 from .grammar import ( grammar_of, Node, Decide, Closure, ClassRef, Unknown, compose, reduce_path, default_context, FILES, dump )
 from . import spec
 
@@ -904,4 +904,56 @@ def g_limits( ctx ):
                 if any( k.arg == 'limit' and not ( isinstance( k.value, ast.Constant ) and k.value.value is None ) for k in c.keywords ):
                     res.bad( s2, c, '%s( ..., limit=... ): a limit on a state that consumes nothing' % c.func.id, 'the limit bounds nothing: the states this one leads to run unlimited' )
     res.ok( src, src.get( 'CIP.__init__' ), 'no limit is hung on a non-consuming state (%d octets_noop / decide / move_if / state constructions)' % n )
+    return res
+
+
+@rule( 'G-PEEK', props=( 'C10', 'C08' ), floor=2 )
+def g_peek( ctx ):
+    """a predicate that looks ahead in the input ( next( source ) ... source.push( ... )) stays inside the item it decides about: the N
+    symbols it takes are taken only when the enclosing length field ( data[path + '..length'] ) announces at least N - evaluated for
+    every length 0 .. N+8 - and every symbol taken is pushed back, last taken first.  Looking ahead regardless of a length of 1 - 3, the
+    outcome for an item depends on the octets of the item that FOLLOWS it, more symbols are pulled from the input than the limit allows,
+    and at the end of the input the StopIteration escapes the predicate ( RuntimeError: generator raised StopIteration )."""
+    res = Result( 'G-PEEK' )
+    n = 0
+    for rel in ( 'server/enip/parser.py', 'server/enip/device.py', 'server/enip/logix.py' ):
+        src = ctx.src( rel )
+        for f in ast.walk( src.tree ):
+            if not isinstance( f, ast.FunctionDef ):
+                continue
+            takes = [ a for a in walk_no_nested( f ) if isinstance( a, ast.Assign ) and pmatch( a.value, 'next( source )' ) is not None and isinstance( a.targets[0], ast.Name ) ]
+            if not takes or 'source' not in [ a.arg for a in f.args.args + f.args.kwonlyargs ]:
+                continue
+            n += 1
+            N = len( takes )
+            qn = src.qualname_of( f ) + '.' + f.name if src.qualname_of( f ) != f.name else f.name
+            # pushed back in reverse order
+            pushes = [ c for c in walk_no_nested( f ) if isinstance( c, ast.Call ) and pmatch( c, 'source.push( _x )' ) is not None ]
+            taken = [ a.targets[0].id for a in sorted( takes, key=lambda a: a.lineno ) ]
+            back = [ dotted( c.args[0] ) for c in sorted( pushes, key=lambda c: c.lineno ) ]
+            if back == taken[::-1]:
+                res.ok( src, pushes[0], '%s: the %d symbols taken are pushed back, last taken first' % ( f.name, N ))
+            else:
+                res.bad( src, takes[0], '%s: takes %s, pushes back %s' % ( f.name, taken, back ), 'the look-ahead must leave the input as it found it ( push back everything taken, in reverse order )', func=f.name )
+            # the guard(s) around the look-ahead
+            guards = [ a for a in src.ancestors( takes[0] ) if isinstance( a, ast.If ) and any( a is x for x in ast.walk( f )) and any( takes[0] is y for b in a.body for y in ast.walk( b )) ]
+            lens = [ g for g in guards if 'length' in ast.unparse( g.test ) ]
+            if not lens:
+                res.bad( src, takes[0], '%s: looks %d symbols ahead whatever the enclosing length' % ( f.name, N ), 'an item shorter than the look-ahead is decided by the octets of what follows it', func=f.name )
+                continue
+            short = []
+            for L in range( 0, N + 9 ):
+                try:
+                    ok = all( fold( g.test, { 'path': 'p', 'data': { 'p..length': L, 'p.length': L, 'length': L } } ) for g in lens )
+                except NoFold as exc:
+                    raise AnalysisError( '%s: length guard not foldable: %s' % ( f.name, exc ))
+                if ok and L < N:
+                    short.append( L )
+            if short:
+                res.bad( src, lens[0], '%s: looks %d symbols ahead for an item of length %s ( %s )' % ( f.name, N, ', '.join( map( str, short )), norm_text( ast.unparse( lens[0].test ))),
+                         'the look-ahead leaves the item: its outcome depends on the octets of the following item, more symbols are pulled from the input than the limit of the enclosing parser allows, and at the end of the input StopIteration escapes ( RuntimeError, the connection is dropped where a bundle member with the same octets is answered )', func=f.name )
+            else:
+                res.ok( src, lens[0], '%s: the %d-symbol look-ahead is taken only when the enclosing length announces at least %d ( %s )' % ( f.name, N, N, norm_text( ast.unparse( lens[0].test ))))
+    if not n:
+        raise AnalysisError( 'G-PEEK: no look-ahead predicate ( next( source ) in a function taking source ) found' )
     return res
